@@ -455,10 +455,25 @@ func (c *Client) Load(ctx context.Context, h backend.Handle, length int, offset 
 	case "corrupt":
 		if len(buf) > 0 {
 			c.fire("load-corrupt")
-			if d.arg%4 == 0 {
+			switch d.arg % 4 {
+			case 0:
 				buf = buf[:d.arg%len(buf)]
 				rd = bytes.NewReader(buf)
-			} else {
+			case 3:
+				// stale / misdirected read: the bytes of another file of the same type (same range if possible)
+				if other := c.S.otherFile(h, d.arg); other != nil {
+					ob := other
+					if int(offset) < len(ob) {
+						ob = ob[offset:]
+					}
+					if length > 0 && length <= len(ob) {
+						ob = ob[:length]
+					}
+					rd = bytes.NewReader(append([]byte(nil), ob...))
+					break
+				}
+				fallthrough
+			default:
 				buf[d.arg%len(buf)] ^= byte(1 << (d.arg % 7))
 			}
 		}
@@ -631,6 +646,23 @@ func (s *Store) Get(h backend.Handle) []byte {
 		return f.Data
 	}
 	return nil
+}
+
+// otherFile returns the content of another stored file of the same type (nil if there is none).
+func (s *Store) otherFile(h backend.Handle, pick int) []byte {
+	s.mu.Lock()
+	defer s.mu.Unlock()
+	var names []string
+	for fh := range s.Files {
+		if fh.Type == h.Type && fh.Name != h.Name {
+			names = append(names, fh.Name)
+		}
+	}
+	if len(names) == 0 {
+		return nil
+	}
+	sort.Strings(names)
+	return s.Files[backend.Handle{Type: h.Type, Name: names[pick%len(names)]}].Data
 }
 
 // Names returns the sorted names of all files of a type.
